@@ -4,9 +4,9 @@ from __future__ import annotations
 import ast
 
 from ..cfg import CFG
-from ..core import AnalysisError, ClassInfo, own_nodes, short, unparse
+from ..core import AnalysisError, parent, ClassInfo, own_nodes, short, unparse
 from ..oracles import content_model as cm_oracle
-from ..rules import dsp, isdrules, pur
+from ..rules import trav, dsp, isdrules, pur
 from . import c14, common
 
 EXPLANATION = (
@@ -287,6 +287,52 @@ def check_doc_params(ctx):
               f"ISD.__init__ does not copy the document parameter via self.{s}({src}.{getter}()): snapshots lose or change it")
 
 
+def check_text_roots(ctx):
+  """White space handling and empty-span pruning start at every element that establishes its own
+  run of text: p, and rt (whose text _construct_text_list leaves out of the enclosing paragraph's
+  run), whatever its parent; and at no element inside such a run (span, br, text, ruby, rb, rbc)."""
+  ix = ctx.ix
+  pe = ix.func("ttconv.isd:ISD._process_element")
+  guards = [n for n in own_nodes(pe.node) if isinstance(n, ast.If) and any(isinstance(s_, ast.Expr) and isinstance(s_.value, ast.Call) and unparse(s_.value.func).endswith("_construct_text_list") for s_ in n.body)]
+  if len(guards) != 1:
+    raise AnalysisError(f"_process_element: expected one guarded call of _construct_text_list, found {len(guards)}")
+  g = guards[0]
+  ctl = ix.func("ttconv.isd:_construct_text_list")
+  # the classes at which _construct_text_list stops descending
+  stop = set()
+  for n in own_nodes(ctl.node):
+    if isinstance(n, ast.Call) and unparse(n.func) == "isinstance" and isinstance(n.args[1], ast.Tuple) and isinstance(parent(n), ast.UnaryOp):
+      for e in n.args[1].elts:
+        r = ix.resolve(ctl.module, e, func=ctl)
+        if isinstance(r, ClassInfo):
+          stop.add(r.name)
+  ctx.check({"Rt", "Rtc", "Rp"} <= stop, "TYPE-GUARD", f"{ctl.qualname}|ruby text is not part of the paragraph's run", ctx.where(ctl.module, ctl.node), f"stops at {sorted(stop)}",
+            f"_construct_text_list descends into ruby text ({sorted({'Rt', 'Rtc', 'Rp'} - stop)}): white space of annotations is merged with the base text")
+  model_mod = ix.mod("ttconv.model")
+  base = ix.cls("ttconv.model:ContentElement")
+  concrete = [c for c in ix.all_subclasses(base) if c.module is model_mod and c.name in cm_oracle.ALLOWED_CHILDREN]
+  region = ix.cls("ttconv.isd:ISD.Region")
+  elems = concrete + [region]
+  subj = None
+  for n in ast.walk(g.test):
+    if isinstance(n, ast.Call) and unparse(n.func) == "isinstance" and isinstance(n.args[0], ast.Name):
+      subj = subj or n.args[0].id
+  names = {subj: elems}
+  for n in ast.walk(g.test):
+    if isinstance(n, ast.Name) and n.id != subj and n.id in pe.params:
+      names[n.id] = elems + [None]
+
+  def oracle(**env):
+    c = env[subj]
+    if c.name in ("P", "Rt"):
+      return True
+    if c.name == "Rtc":
+      return None   # its only text-bearing children are rt / rp, which are not part of its run
+    return False
+  trav.check_type_guard(ctx, pe, g.test, names, oracle, "TYPE-GUARD", f"{pe.qualname}|white space is processed at every text root", ctx.where(pe.module, g),
+                        "white-space handling starts at p and at every rt")
+
+
 def run(ctx):
   ix = ctx.ix
   check_lengths(ctx)
@@ -313,3 +359,11 @@ def run(ctx):
   has_one = pc is not None and any(isinstance(n_, ast.If) and "has_children" in unparse(n_.test) and isinstance(n_.body[-1], ast.Raise) for n_ in own_nodes(pc.node))
   ctx.check(tested == cm_oracle.ISD_REGION_CHILDREN and has_one, "TAB-content", "ttconv.isd:ISD.Region|children", ctx.where(isd_region.module, isd_region.node),
             "ISD regions admit exactly one Body", f"ISD.Region.push_child admits {sorted(tested)} (at-most-one guard: {has_one}); must admit exactly one Body")
+  check_text_roots(ctx)
+  pe = ctx.ix.func("ttconv.isd:ISD._process_element")
+  nc = trav.check_decisions_read_computed(ctx, pe, {pe.params[-1], "selected_region", "inherited_region", "associated_region"},
+                                          lambda n: isinstance(n, ast.Call) and unparse(n.func).endswith("_compute_styles"))
+  ctx.floor("COMPUTED", "style-dependent decisions after style computation", nc, 2)
+  # computed lengths are root-relative only if every compute() sees already-computed dependencies
+  isdrules.check_compute_order(ctx)
+  common.check_history_independence(ctx, common.CORE)
